@@ -217,7 +217,7 @@ def evaluate(ctx, R, case, a, b, before, dry, real):
     W = [(A.content(case["files"][m]), depid, A.content(real_tree[m])) for m in manifest_changed]
     hx_fs = [(A.path(p), A.content(c)) for p, c in case["files"].items()]
     ob_fs = [(A.path(p), A.content(c)) for p, c in core.read_tree(a).items() if p in case["files"]]
-    ob_rows = [(A.codemod(r["codemod"]), [A.path(p) for p in r["changed"]], [A.path(p) for p in r["failed"]]) for r in dry_rows]
+    ob_rows = [(A.codemod(r["codemod"]), [A.path(p) for p in r["changed"]], [A.path(p) for p in r["failed"]], [A.path(p) for p in rc.unfixed_paths(r)]) for r in dry_rows]
     # oracle: which selected sources the pipeline cannot read (UTF-8 decode + libcst parse), e.g. a setup.py stored as UTF-16
     import libcst
     hx_bad = []
@@ -291,6 +291,7 @@ for name, (pipe, ext) in PIPES.items():
         r = go(root, mode == "dry", pipe, ext, 2)
         after = snap(root)
         r["touched"] = sorted(p for p in set(before) | set(after) if before.get(p) != after.get(p))
+        r["before"], r["after"] = before, after
         res[mode] = r
     out[name] = res
 print(json.dumps(out))
@@ -343,6 +344,24 @@ def check_pipeline_probes(ctx, files, tag):
             ctx.violation("kf_dry_report_differs", f"{tag}: {name} pipeline: change sets / failures of the dry run differ from the real run: "
                           f"{[c[0] for c in r['dry']['changesets']]} vs {[c[0] for c in r['real']['changesets']]}",
                           {**replay, "expected": "identical change sets and failures"})
+    # MODEL vs implementation on the regex / XML branches of pipeline_apply: oracle values from the real run, prediction of the dry run
+    terms, names = [], []
+    for name, r in out.items():
+        pipe = "PRegex" if name == "regex" else "PXml"
+        real, dry = r["real"], r["dry"]
+        if real["raised"]:
+            continue
+        observed = {"changed": [c[0] for c in dry["changesets"]], "failed": dry["failed"], "raised": dry["raised"], "tree": dry["after"]}
+        terms.append(rc.probe_hcase(pipe, real["before"], real["after"], real["failed"], observed, True))
+        names.append(name)
+    if terms:
+        bad = core.eval_bad_indices(ctx, f"c04_probe_{abs(hash(tag)) % 10000}", rc.IMPORTS, "hcase", terms, ["run_model_ok", "dry_spec_ok"])
+        for i in bad["run_model_ok"]:
+            ctx.mismatch(f"{names[i]} pipeline (real classes, dry run) vs Model.Run.run at {('PRegex' if names[i] == 'regex' else 'PXml')}",
+                         f"{tag}: the model does not predict the dry run of the {names[i]} pipeline", {"pipeline_probe": names[i], "probe_files": files, "case_term": terms[i]})
+        for i in bad["dry_spec_ok"]:
+            ctx.violation("kf_dry_run_writes", f"{tag}: {names[i]} pipeline: a path's content changed under dry_run=True",
+                          {"pipeline_probe": names[i], "probe_files": files})
     return out
 
 
